@@ -130,10 +130,39 @@ func c15Run(c *Ctx, cs c15Case, count bool) {
 		pa := StackAlias(stackage.And().Push("pa"))
 		// Stacks, aliases, a Condition - and typed nil pointers, which are elements like any other value
 		mixed := []any{stackage.Or().Push("in"), StackAlias(stackage.And().Push("al")), &pa, stackage.Cond("k", stackage.Eq, "v"), (*int)(nil), (*stackage.Stack)(nil), (*StackAlias)(nil)}
+		// ... and nested Stacks that EQUAL the destination (as it is before the call, and empty) without being it
+		twin := func(fill bool) stackage.Stack {
+			var t stackage.Stack
+			if cs.DstCap > 0 {
+				t = newStackKind(cs.DstKind, cs.DstCap)
+			} else {
+				t = newStackKind(cs.DstKind)
+			}
+			if fill {
+				t.Push(c15Values(cs.DstLen, cs.DstMask, "d")...)
+			}
+			return t
+		}
+		mixed = append(mixed, twin(true), twin(false), StackAlias(twin(true)))
 		for i := 1; i < len(srcVals); i += 2 {
 			if srcVals[i] != nil {
 				srcVals[i] = mixed[(i/2+cs.SrcLen+2*cs.DstLen+cs.DstCap)%len(mixed)] // which one varies with the case, so that every kind meets every configuration
 			}
+		}
+	}
+	if cs.SrcMixed && cs.SrcLen > 0 {
+		// one element is a Stack that equals the destination as it will be when the copy gets there (its
+		// earlier content plus the source's elements before this one) - equal, not the same instance
+		if j := (cs.SrcLen + cs.DstLen + cs.DstCap) % cs.SrcLen; srcVals[j] != nil {
+			var t stackage.Stack
+			if cs.DstCap > 0 {
+				t = newStackKind(cs.DstKind, cs.DstCap)
+			} else {
+				t = newStackKind(cs.DstKind)
+			}
+			t.Push(c15Values(cs.DstLen, cs.DstMask, "d")...)
+			t.Push(srcVals[:j]...)
+			srcVals[j] = t
 		}
 	}
 	src.Push(srcVals...)
@@ -387,6 +416,16 @@ func c15Cases(c *Ctx) []c15Case {
 					for _, form := range []string{"native", "ptr-alias", "read-only"} {
 						out = append(out, c15Case{SrcLen: sl, SrcMask: sm, SrcFIFO: sl%2 == 0, SrcKind: "LIST", DstLen: dl, DstMask: -1, DstCap: dc, DstForm: form, DstKind: "AND", DstMtx: dl == 1})
 					}
+				}
+			}
+		}
+	}
+	// destinations whose capacity lies beyond the largest reservation the constructor makes, almost full
+	for _, dc := range []int{1023, 1024, 1025, 1500, 2049} {
+		for _, free := range []int{0, 2, 5} {
+			for _, sl := range []int{1, 5, 6} {
+				for _, form := range []string{"native", "alias", "ptr-native"} {
+					out = append(out, c15Case{SrcLen: sl, SrcMask: -1, SrcKind: "LIST", DstLen: dc - free, DstMask: -1, DstCap: dc, DstForm: form, DstKind: "AND"})
 				}
 			}
 		}
